@@ -8,6 +8,7 @@ import Mmmbbb.Model.Backoff
 import Mmmbbb.Model.Faults
 import Mmmbbb.Model.Push
 import Mmmbbb.Model.Notify
+import Mmmbbb.Model.Stream
 namespace Mmmbbb.Pure
 open Mmmbbb.Codec Mmmbbb.Filter
 
@@ -177,8 +178,45 @@ def handleNotify (fs : Fields) : String :=
     "R " ++ "|".intercalate (go σ0 sched [])
   | _, _, _, _ => "ERROR bad notify line"
 
+/-! stream: `stream evs=<ev>;<ev>;…` with `fc~m~b`, `loop`, `wake`, `q~id:size+…`, `empty`, `s~id+…` (stream ack/nack),
+`x~id+…` (outside ack), `r~id+…` (refresh); answers the ids selected by each `q`, then the final state -/
+
+def parseStreamEv (e : String) : Option Stream.Ev :=
+  match e.splitOn "~" with
+  | ["fc", m, b] => match m.toInt?, b.toInt? with
+    | some m, some b => some (.setFc m b)
+    | _, _ => none
+  | ["loop"] => some .loop
+  | ["wake"] => some (.wake false)
+  | ["spurious"] => some (.wake true)
+  | ["empty"] => some .fetchEmpty
+  | ["q", l] => (pairList l "+").map Stream.Ev.query
+  | ["s", l] => (natList l "+").map Stream.Ev.settle
+  | ["x", l] => (natList l "+").map Stream.Ev.extSettle
+  | ["r", l] => (natList l "+").map Stream.Ev.refresh
+  | _ => none
+
+def handleStream (fs : Fields) : String :=
+  match (splitNE ((fget fs "evs").getD "") ";").mapM parseStreamEv with
+  | none => "ERROR bad stream line"
+  | some evs =>
+    let rec go (s : Stream.St) (evs : List Stream.Ev) (acc : List String) : Stream.St × List String :=
+      match evs with
+      | [] => (s, acc.reverse)
+      | e :: r =>
+        let s' := Stream.step s e
+        match e, s.budget with
+        | .query cands, some (m, b, strict) =>
+          let sel := Stream.select strict b (cands.take m) 0 0
+          go s' r ("+".intercalate (sel.map fun x => toString x.1) :: acc)
+        | .query _, none => go s' r ("nofetch" :: acc)
+        | _, _ => go s' r acc
+    let (s, sels) := go {} evs []
+    "R " ++ ";".intercalate sels ++ "|w=" ++ (if s.waiting then "1" else "0") ++ "|f=" ++ (if s.budget.isSome then "1" else "0") ++
+      "|p=" ++ "+".intercalate (s.pending.map fun x => toString x.1)
+
 def isPureOp (op : String) : Bool :=
-  op == "filter" || op == "backoff" || op == "faults" || op == "push" || op == "window" || op == "notify"
+  op == "filter" || op == "backoff" || op == "faults" || op == "push" || op == "window" || op == "notify" || op == "stream"
 
 def handle (op : String) (fs : Fields) : String :=
   if op == "filter" then handleFilter fs
@@ -187,6 +225,7 @@ def handle (op : String) (fs : Fields) : String :=
   else if op == "push" then handlePush fs
   else if op == "window" then handleWindow fs
   else if op == "notify" then handleNotify fs
+  else if op == "stream" then handleStream fs
   else "ERROR unknown pure op"
 
 end Mmmbbb.Pure
